@@ -381,7 +381,7 @@ def part_trees(part, n, batch=16):
 
 def parts(tier, seed):
     if tier == "quick":
-        ps = [(f"trees-{i}", part_trees, {"n": 250}) for i in range(10)]
+        ps = [(f"trees-{i}", part_trees, {"n": 600}) for i in range(12)]
     else:
         ps = [(f"trees-{i}", part_trees, {"n": 6000}) for i in range(12)]
     ps += [("pairs", part_pairs, {}), ("unary", part_unary, {}),
